@@ -50,6 +50,7 @@ func main() {
 		{"SplitWalkGen.v", genSplitWalk},
 		{"TmsData.v", genTmsData},
 		{"CliGen.v", genCli},
+		{"CliMainGen.v", genCliMain},
 		{"RingHelpersGen.v", genRingHelpers},
 		{"QuadTreeGen.v", genQuadTree},
 		{"GpkgWriterGen.v", genGpkgWriter},
